@@ -147,6 +147,23 @@ fn same(x: &MVals, y: &MVals) -> Option<&'static str> {
 }
 
 fn execute(scn: &Scn) -> RunOutcome {
+    // same hidden state at the start of every run (see simmodel::normalise_hidden_state)
+    {
+        use mina::EasingFunction;
+        let mut acc = 0.0f32;
+        for e in [Easing::Ease, Easing::InOutQuad, Easing::OutBack, Easing::InExpo] {
+            acc += e.calc(0.3125) + e.calc(0.75);
+        }
+        let tl = TimelineBuilder::build(
+            MVals::timeline()
+                .duration_seconds(2.0)
+                .keyframe(MVals::keyframe(0.0).a(1.0))
+                .keyframe(MVals::keyframe(1.0).a(3.0).n(4)),
+        );
+        let mut v = MVals::default();
+        tl.update(&mut v, 0.5);
+        std::hint::black_box((acc, v));
+    }
     let mut out = RunOutcome::default();
     let mut h = ObsHash::default();
     let fail = |clause: &str, step: usize, detail: String| Violation {
